@@ -49,6 +49,39 @@ Qed.
 Lemma gcd_list_single : forall x, gcd_list [x] = Z.abs x.
 Proof. intros x. cbn [gcd_list]. apply Z.gcd_0_r. Qed.
 
+(* gcd_list l is the greatest common divisor of the elements of l *)
+Lemma gcd_list_divide_in : forall l x, In x l -> (gcd_list l | x).
+Proof.
+  induction l as [|a l IH]; intros x Hx; [contradiction|]. cbn [gcd_list]. destruct Hx as [<-|Hx].
+  - apply Z.gcd_divide_l.
+  - apply Z.divide_trans with (gcd_list l); [apply Z.gcd_divide_r | now apply IH].
+Qed.
+
+Lemma gcd_list_greatest : forall l g, (forall x, In x l -> (g | x)) -> (g | gcd_list l).
+Proof.
+  induction l as [|a l IH]; intros g H; cbn [gcd_list]; [apply Z.divide_0_r|].
+  apply Z.gcd_greatest; [apply H; now left | apply IH; intros x Hx; apply H; now right].
+Qed.
+
+(* two lists that have the same common divisors have the same gcd *)
+Lemma gcd_list_same_divisors : forall l l',
+  (forall g, (forall x, In x l -> (g | x)) -> (forall x, In x l' -> (g | x))) ->
+  (forall g, (forall x, In x l' -> (g | x)) -> (forall x, In x l -> (g | x))) ->
+  gcd_list l = gcd_list l'.
+Proof.
+  intros l l' H1 H2. apply Z.divide_antisym_nonneg; try apply gcd_list_nonneg.
+  - apply gcd_list_greatest. apply H1. apply gcd_list_divide_in.
+  - apply gcd_list_greatest. apply H2. apply gcd_list_divide_in.
+Qed.
+
+(* a list all of whose elements are multiples of one of them, x *)
+Lemma gcd_list_generator : forall l x, In x l -> (forall y, In y l -> (x | y)) -> gcd_list l = Z.abs x.
+Proof.
+  intros l x Hx H. apply Z.divide_antisym_nonneg; [apply gcd_list_nonneg | apply Z.abs_nonneg | |].
+  - apply Z.divide_abs_r. now apply gcd_list_divide_in.
+  - apply Z.divide_abs_l. now apply gcd_list_greatest.
+Qed.
+
 (* ------------------------------------------------------------------------------------------ *)
 (* 2. sums against a unit vector                                                                *)
 (* ------------------------------------------------------------------------------------------ *)
